@@ -297,6 +297,7 @@ func rioControl(c *Ctx, rc rioCase, tape *simrt.Tape, count bool) (vs []rioV, ev
 	for i, want := range live {
 		got, err := rd.ReadNext()
 		evals++
+		Beat()
 		if err != nil {
 			add("seq-read|error:"+normErr(err), fmt.Sprintf("ReadNext #%d failed: %v (want %s)", i, err, recDesc(want.payload)))
 			_ = rd.Close()
@@ -324,6 +325,7 @@ func rioControl(c *Ctx, rc rioCase, tape *simrt.Tape, count bool) (vs []rioV, ev
 		}
 		for i, want := range live {
 			evals++
+			Beat()
 			if rc.SkipMask&(1<<(uint(i)%64)) != 0 {
 				if err := rd.SkipNext(); err != nil {
 					add("skip|error:"+normErr(err), fmt.Sprintf("SkipNext over record #%d (%s) failed: %v", i, recDesc(want.payload), err))
@@ -362,6 +364,7 @@ func rioControl(c *Ctx, rc rioCase, tape *simrt.Tape, count bool) (vs []rioV, ev
 	for i, want := range live {
 		got, err := mm.ReadNextAt(want.off)
 		evals++
+		Beat()
 		if err != nil || !sameRec(got, want) {
 			add("read-at|wrong", fmt.Sprintf("ReadNextAt(%d) for record #%d = (%s, %v), written %s", want.off, i, recDesc(got), err, recDesc(want.payload)))
 			return
@@ -399,6 +402,7 @@ func rioControl(c *Ctx, rc rioCase, tape *simrt.Tape, count bool) (vs []rioV, ev
 		}
 		gotOff, got, err := mm.SeekNext(off)
 		evals++
+		Beat()
 		if next >= len(live) {
 			if !errors.Is(err, io.EOF) {
 				add("seek-next|no-eof", fmt.Sprintf("SeekNext(%d) past the last record start = (%d, %s, %v), want EOF", off, gotOff, recDesc(got), err))
@@ -526,6 +530,7 @@ func rioDamage(c *Ctx, rc rioCase, tape *simrt.Tape, count bool) (vs []rioV, eva
 			panic(err)
 		}
 		evals++
+		Beat()
 		complete := 0
 		for i, r := range live {
 			end := hdrs[i].start + hdrs[i].length
@@ -632,6 +637,7 @@ func rioDamage(c *Ctx, rc rioCase, tape *simrt.Tape, count bool) (vs []rioV, eva
 					panic(err)
 				}
 				evals++
+				Beat()
 				where := fmt.Sprintf("record #%d header byte %d (file offset %d) %02x -> %02x", i, pos-h.start, pos, orig[pos], v)
 				recs, _, openErr, readErr := readAllSeq(dmg, rc.ReadBuf)
 				if openErr != nil {
@@ -702,6 +708,7 @@ func rioDamage(c *Ctx, rc rioCase, tape *simrt.Tape, count bool) (vs []rioV, eva
 		binary.LittleEndian.PutUint32(buf[0:4], ver)
 		_ = os.WriteFile(dmg, buf, 0600)
 		evals++
+		Beat()
 		if _, _, openErr, _ := readAllSeq(dmg, rc.ReadBuf); openErr == nil {
 			add("file-header|unsupported-version-accepted", fmt.Sprintf("version %d accepted by the sequential reader", ver))
 			return
@@ -720,6 +727,7 @@ func rioDamage(c *Ctx, rc rioCase, tape *simrt.Tape, count bool) (vs []rioV, eva
 		binary.LittleEndian.PutUint32(buf[4:8], ct)
 		_ = os.WriteFile(dmg, buf, 0600)
 		evals++
+		Beat()
 		if _, _, openErr, _ := readAllSeq(dmg, rc.ReadBuf); openErr == nil {
 			add("file-header|unsupported-compression-accepted", fmt.Sprintf("compression code %d accepted by the sequential reader", ct))
 			return
